@@ -166,6 +166,31 @@ pub fn needle_families(level: u8, rng: &mut Rng) -> Vec<Needle> {
             }
         }
     }
+    // needles just beyond the 255-byte window of pair selection whose
+    // rarest byte lies *past* that window while the two rare bytes inside it
+    // sit near its end (so the vector searchers' minimum haystack length
+    // exceeds the needle length and the single-byte fallback prefilter with
+    // its u8 offset is in play)
+    let ls: &[usize] = match level {
+        0 => &[260],
+        1 => &[257, 260, 269, 270],
+        _ => &[257, 258, 259, 260, 263, 268, 269, 270, 272, 300],
+    };
+    for &l in ls {
+        let ps = [256usize, l - 2, l - 1];
+        for (k, &p) in ps.iter().enumerate() {
+            if level == 0 && k != 1 {
+                continue;
+            }
+            for (fill, rare) in [(b'a', 0x7Fu8), (b'e', b'Z')] {
+                let mut x = vec![fill; l];
+                x[250] = b'q';
+                x[253] = b'j';
+                x[p] = rare;
+                v.push(nd(format!("rare-past-cap-{}@{}-{:02x}", l, p, rare), x));
+            }
+        }
+    }
     v
 }
 
